@@ -7,6 +7,10 @@
 #[cfg(kani)]
 mod stubs;
 #[cfg(kani)]
+mod c36_timelock;
+#[cfg(kani)]
+mod c37_treasury;
+#[cfg(kani)]
 mod c38_lp_rewards;
 #[cfg(kani)]
 mod c39_leaderboard;
